@@ -183,8 +183,11 @@ def main(argv=None):
             else:
                 undecided.append((full, "solver returned unknown / timeout"))
         # obligations that silently disappeared
-        for site, st in ledger.get(n, {}).items():
-            if site not in r["sites"] and r["status"] in ("ok", "failed", "unknown"):
+        for site, ent in ledger.get(n, {}).items():
+            st, pr = (ent if isinstance(ent, list) else (ent, None))
+            if pr is not None and prop not in pr:
+                continue
+            if site not in r["sites"] and r["status"] == "ok":
                 undecided.append((f"{n}::{site}", "obligation present in the ledger was not generated on this run"))
 
     # native (bounded) stand-ins / replay sweeps
@@ -273,7 +276,7 @@ def main(argv=None):
 
     if a.update_ledger:
         for n in names:
-            ledger[n] = {s: d["status"] for s, d in results[n]["sites"].items()}
+            ledger[n] = {s: [d["status"], d.get("props")] for s, d in results[n]["sites"].items()}
         with open(os.path.join(ROOT, "ledger.json"), "w") as f:
             json.dump(ledger, f, indent=1, sort_keys=True)
 
@@ -319,7 +322,8 @@ def assert_coverage(ledger):
     repo = Repo()
     covered = set()
     for unit_name, sites in ledger.items():
-        for site, st in sites.items():
+        for site, ent in sites.items():
+            st = ent[0] if isinstance(ent, list) else ent
             if "/assert#" in site and st == "discharged":
                 covered.add(site)
     total, unc = 0, []
